@@ -225,6 +225,11 @@ def parseDesc : Nat → List String → Option (Desc × List String)
     | ['T'] => do
         let (d, rest) ← parseDesc fuel rest
         pure (.strm d, rest)
+    | ['U'] => do
+        -- NewStreamConnection over an underlying net.Conn that is a closed, status-tracking wrapper: the underlying
+        -- connection serves addresses and deadlines only and is no part of the object's close behaviour
+        let (d, rest) ← parseDesc fuel rest
+        pure (.strm d, rest)
     | _ => Option.none
 
 def parseOp : Char → Option Op
